@@ -7,6 +7,7 @@ from __future__ import annotations
 
 from hypothesis import strategies as st
 
+from harness import pyo
 from harness import zones as Z
 from harness.core import CaseInfo, Ctx, InvalidCase, Mismatch, Task, sub_seed
 from harness.gen import ints_biased, run_hypothesis
@@ -63,6 +64,22 @@ def check_interval(z, iv, t_ns: int | None, zid: str) -> None:
     for p in probes:
         off = z.get_utc_offset(Z.inst(p))
         need(isinstance(off, Offset) and off.seconds == wall, "utc-offset-ne-wall", f"{zid}: at {p} offset {off.seconds} but interval wall {wall}")
+    # derived accessors of the interval value: duration, ISO local bounds, and the refusal to name a missing bound
+    if iv.has_start and iv.has_end:
+        need(iv.duration.to_nanoseconds() == e - s, "interval/duration", f"{zid}: {iv.duration.to_nanoseconds()} != {e - s}")
+    else:
+        for acc in (("start", "iso_local_start") if not iv.has_start else ()) + (("end", "iso_local_end") if not iv.has_end else ()) + ("duration",):
+            try:
+                getattr(iv, acc)
+            except (RuntimeError, ValueError, OverflowError):
+                continue
+            raise Mismatch(f"interval/{acc}-of-unbounded-interval-answered", f"{zid}: [{s},{e})")
+    for has, bound, acc in ((iv.has_start, s, "iso_local_start"), (iv.has_end, e, "iso_local_end")):
+        if has:
+            local = bound + wall * Z.SEC
+            if Z.INST_MIN <= local <= Z.INST_MAX:
+                ldt = getattr(iv, acc)
+                need(ldt.calendar.id == "ISO" and pyo.ldt_total(ldt) == local, f"interval/{acc}", f"{zid}: {pyo.ldt_total(ldt)} != {local}")
     if iv.has_end:
         again = z.get_zone_interval(Z.inst(e - 1))
         need(Z.iv_tuple(again) == Z.iv_tuple(iv), "end-minus-1ns-other-interval", f"{zid}: {Z.iv_tuple(again)} vs {Z.iv_tuple(iv)}")
